@@ -272,8 +272,11 @@ Fixpoint normalise_nl (s : str) : str :=
 
 Definition tag_br : str := [98; 114; 47].          (* br/ *)
 Definition tag_close_a : str := [47; 97].           (* /a *)
-Definition anchor_open_pre : str := tl wrap_pre.    (* [a href=] and the opening quote *)
-Definition anchor_open_post : str := removelast wrap_mid.  (* closing quote, then [ target=_blank] quoted *)
+(** The anchor opening the SPEC accepts is fixed here, literally (not taken from the code):
+    [a href=], double quote, href, double quote, [ target=], quoted [_blank]. The proofs tie
+    the code's generated literals (Gen: wrap_pre, wrap_mid, wrap_post) to these. *)
+Definition anchor_open_pre : str := [97; 32; 104; 114; 101; 102; 61; 34].
+Definition anchor_open_post : str := [34; 32; 116; 97; 114; 103; 101; 116; 61; 34; 95; 98; 108; 97; 110; 107; 34].
 
 Fixpoint span_not (c : N) (s : str) : str * str :=
   match s with
